@@ -38,6 +38,10 @@ type GenOpts struct {
 	Capped  *int
 	// ClampBits > 0 keeps every drawn amount below 2^ClampBits.
 	ClampBits int
+	// AvoidSenderNotSigner, if set, keeps AVS precompile calls that act for a `sender` other
+	// than the transaction's signer out of the histories (exclusion by construction of a listed
+	// finding) and counts how often that happened.
+	AvoidSenderNotSigner *int
 	// Dynamic, if set, adjusts the weights to the current state before every draw.
 	Dynamic func(m *Machine, w map[string]int) map[string]int
 }
@@ -475,6 +479,34 @@ func (m *Machine) Draw(t *rapid.T, g *GenOpts) Action {
 	case "price":
 		m.drawPrice(t, g, &a)
 		return a
+	case "regChain":
+		a.Lz = []uint64{101, 102, 103, 104, 105}[uniform(t, 5, "lz")]
+	case "regToken":
+		a.Lz = []uint64{101, 102}[uniform(t, 2, "lz")]
+		a.N = uniform(t, 1000, "tok")
+	case "updToken":
+		lst := m.lstAssets()
+		a.Asset = lst[uniform(t, len(lst), "lst")]
+		a.N = uniform(t, 1000, "meta")
+	case "regOperator":
+		// somebody who is not an operator yet: a staker, a contract account or the unrelated account
+		cands := []int{}
+		for i := range m.idents() {
+			if i < len(m.W.AVSKeys) || i >= len(m.W.AVSKeys)+len(m.W.Operators) {
+				cands = append(cands, i)
+			}
+		}
+		a.Ident = cands[uniform(t, len(cands), "who")]
+	case "updateParams":
+		a.Module = paramModules[uniform(t, len(paramModules), "module")]
+		attacker := uniform(t, len(m.idents()), "attacker")
+		if pct(t, 50, "own-authority?") {
+			a.Ident = attacker // names itself as authority and signs properly
+		} else {
+			a.Ident = -1 // names the governance account, signs with its own key or not at all
+			a.Signer = 1 + attacker
+			a.Forge = []int{0, 2}[uniform(t, 2, "forge")]
+		}
 	case "avsRegister", "avsUpdate", "avsDeregister", "avsOptIn", "avsOptOut", "avsBLS", "avsTask", "avsResult", "avsChallenge":
 		m.drawAvs(t, g, &a)
 		return a
